@@ -338,6 +338,27 @@ def c19(cx):
         shown = [c for c in b0.tealer_comments if c.startswith('block_id')]
         if b0.cost != want or not shown or f"cost = {want}" not in shown[0]:
             cx.violations.append({'kind': 'block-cost', 'program': src, 'prop': 'C19', 'field': 'cost', 'where': 'B0', 'detail': f"block cost {b0.cost} (comment {shown}), sum of opcode costs for v{v} is {want}", 'src': src, 'env': None})
+    # systematic: two instructions of the SAME opcode whose costs differ (the curve of the ecdsa family ...) in one block, in both
+    # orders - the cost of a block is a sum over instructions, not over opcodes
+    by_op = {}
+    for l in prow:
+        if l in set(r[1] for r in plain): by_op.setdefault(l.split()[0], []).append(l)
+    stats['same_opcode_pairs'] = 0
+    for opw, ls in sorted(by_op.items()):
+        for a in ls:
+            for b in ls:
+                if a == b or prow[a] == prow[b]: continue
+                for v in sorted({vv for vv in range(1, 9) if prow[a][vv - 1] != prow[b][vv - 1]})[-2:]:
+                    src = f"#pragma version {v}\n{a}\n{b}\n{a}\n"
+                    try:
+                        t, _, _ = quiet(parse_teal, src)
+                    except BaseException:
+                        continue
+                    stats['same_opcode_pairs'] += 1
+                    want = 2 * prow[a][v - 1] + prow[b][v - 1] + 1
+                    if t.bbs[0].cost != want:
+                        cx.violations.append({'kind': 'block-cost', 'program': src, 'prop': 'C19', 'field': 'cost', 'where': 'B0',
+                                              'detail': f"block cost {t.bbs[0].cost}; `{a}` costs {prow[a][v - 1]} and `{b}` costs {prow[b][v - 1]} under v{v}: the sum is {want}", 'src': src, 'env': None})
     # the same through a group configuration whose `version:` entry disagrees with the program's own declaration: the declared
     # `#pragma version` (1 when absent) decides, in Teal.version, in the cost of the contract's blocks and of the function's copies
     import tempfile, shutil, logging
